@@ -1,9 +1,185 @@
-(* C37 — property theorems only. *)
+(* C37 — property theorems only.  Each is closed by `exact <lemma>` and followed by Print Assumptions.
+   `clamp` selects the variant of the shortening rule: false = code as found in the pinned tree,
+   true = repaired code (fixes/C37-clamp-shortened-length.patch); theorems quantified over clamp hold for both. *)
 From Coq Require Import List NArith Arith Bool.
-From Verif.C37 Require Import Model Spec Proofs.
+From Verif.C37 Require Import Model Spec Proofs Families.
 Import ListNotations.
 
-Theorem c37_deterministic : forall H p s max a b,
-  gllid H p s max = a -> gllid H p s max = b -> a = b.
+(* every name GetLengthLimitedID returns is at most maxLength bytes long (both variants of the rule) *)
+Theorem c37_fits : forall clamp H p s max n, gllid clamp H p s max = Some n -> length n <= max.
+Proof. exact gllid_fits. Qed.
+Print Assumptions c37_fits.
+
+(* the name is a function of (prefix, suffix, limit) and the digest function only *)
+Theorem c37_deterministic : forall clamp H p s max a b, gllid clamp H p s max = a -> gllid clamp H p s max = b -> a = b.
 Proof. exact gllid_deterministic. Qed.
 Print Assumptions c37_deterministic.
+
+(* exact characterisation of when two suffixes get the same name under one prefix and limit *)
+Theorem c37_names_equal_iff : forall clamp H p a b max n m,
+  gllid clamp H p a max = Some n -> gllid clamp H p b max = Some m ->
+  (n = m <-> eff a = eff b \/
+     (shortened clamp p a max /\ shortened clamp p b max /\
+      firstn (left_chars clamp p max) (H (eff a)) = firstn (left_chars clamp p max) (H (eff b)))).
+Proof. exact gllid_eq_iff. Qed.
+Print Assumptions c37_names_equal_iff.
+
+(* equal names => same suffix, or both shortened with colliding truncated digests of different texts, or the ""/"_" pair *)
+Theorem c37_injective_mod_hash : forall clamp H p a b max n,
+  gllid clamp H p a max = Some n -> gllid clamp H p b max = Some n ->
+  a = b \/
+  (shortened clamp p a max /\ shortened clamp p b max /\ eff a <> eff b /\
+   firstn (left_chars clamp p max) (H (eff a)) = firstn (left_chars clamp p max) (H (eff b))) \/
+  (a = [] /\ b = [marker]) \/ (a = [marker] /\ b = []).
+Proof. exact gllid_injective_mod_hash. Qed.
+Print Assumptions c37_injective_mod_hash.
+
+(* the degenerate clash is real and is exactly "" versus "_" (see c37_injective_mod_hash) *)
+Theorem c37_degenerate_clash : forall clamp H p max, gllid clamp H p [] max = gllid clamp H p [marker] max.
+Proof. exact gllid_empty_marker. Qed.
+Print Assumptions c37_degenerate_clash.
+
+(* a shortened name never equals an unshortened one (the marker test) *)
+Theorem c37_short_long_apart : forall clamp H p a b max n m,
+  gllid clamp H p a max = Some n -> shortened clamp p a max ->
+  gllid clamp H p b max = Some m -> ~ shortened clamp p b max -> n <> m.
+Proof. exact gllid_short_long_apart. Qed.
+Print Assumptions c37_short_long_apart.
+
+(* repaired rule: a name is returned whenever prefix + marker + 1 fits *)
+Theorem c37_total_repaired : forall H p s max, (forall x, length (H x) = hash_len) -> length p + 2 <= max -> exists n, gllid true H p s max = Some n.
+Proof. exact gllid_total_clamped. Qed.
+Print Assumptions c37_total_repaired.
+
+(* code as found: a name is returned only while the room does not exceed the digest text (partial: see the refutation below) *)
+Theorem c37_total_as_found_partial : forall H p s max, (forall x, length (H x) = hash_len) -> length p + 2 <= max -> max <= length p + 1 + hash_len -> exists n, gllid false H p s max = Some n.
+Proof. exact gllid_total_unclamped. Qed.
+Print Assumptions c37_total_as_found_partial.
+
+(* REFUTED for the code as found: a validated policy ID (name of 245 bytes) has no nftables chain name (panic) *)
+Theorem c37_as_found_always_names_refuted : exists H id, (forall x, length (H x) = hash_len) /\ valid_pid id = true /\ length (p_name id) <= 253 /\
+               policy_chain false H true true id = None.
+Proof. exact unclamped_panics. Qed.
+Print Assumptions c37_as_found_always_names_refuted.
+
+(* the two variants coincide whenever the limit leaves at most 43 digest characters (all iptables and ipset limits) *)
+Theorem c37_variants_agree_small : forall H p s max, max <= length p + 1 + hash_len -> gllid true H p s max = gllid false H p s max.
+Proof. exact clamp_irrelevant_small. Qed.
+Print Assumptions c37_variants_agree_small.
+
+(* PolicyID.ID() is injective on IDs with a known kind and no '/' in name and namespace *)
+Theorem c37_policy_text_injective : forall a b, valid_pid a = true -> valid_pid b = true -> policy_text a = policy_text b -> a = b.
+Proof. exact policy_text_injective. Qed.
+Print Assumptions c37_policy_text_injective.
+
+(* outside validation ('/' in a name) the ID text is ambiguous *)
+Theorem c37_policy_text_slash_refuted : exists a b, a <> b /\ known_kind (p_kind a) = true /\ known_kind (p_kind b) = true /\ policy_text a = policy_text b.
+Proof. exact policy_text_not_injective_with_slash. Qed.
+Print Assumptions c37_policy_text_slash_refuted.
+
+(* an unknown kind equal to a short kind name clashes with the known kind *)
+Theorem c37_policy_text_unknown_kind_refuted : exists a b, a <> b /\ clean (p_name a) = true /\ clean (p_name b) = true /\ policy_text a = policy_text b.
+Proof. exact policy_text_not_injective_unknown_kind. Qed.
+Print Assumptions c37_policy_text_unknown_kind_refuted.
+
+(* names built with different chain prefixes (pi po pri pro gi go tw fw sm th fh thfw fhfw arp) never coincide *)
+Theorem c37_families_disjoint : forall clamp H p q s t m1 m2 n1 n2,
+  In p chain_prefixes -> In q chain_prefixes -> p <> q ->
+  gllid clamp H p s m1 = Some n1 -> gllid clamp H q t m2 = Some n2 -> n1 <> n2.
+Proof. exact families_disjoint. Qed.
+Print Assumptions c37_families_disjoint.
+
+(* policy chains: equal names => same direction and same PolicyID, or a truncated SHA-256 collision *)
+Theorem c37_policy_chain_injective : forall clamp H i j nft a b n,
+  valid_pid a = true -> valid_pid b = true ->
+  policy_chain clamp H i nft a = Some n -> policy_chain clamp H j nft b = Some n ->
+  (i = j /\ a = b) \/ trunc_collision H (left_chars clamp pfx_pi (max_chain nft)).
+Proof. exact policy_chain_injective. Qed.
+Print Assumptions c37_policy_chain_injective.
+
+(* profile chains: same, for non-empty profile names *)
+Theorem c37_profile_chain_injective : forall clamp H i j nft a b n,
+  a <> [] -> b <> [] ->
+  profile_chain clamp H i nft a = Some n -> profile_chain clamp H j nft b = Some n ->
+  (i = j /\ a = b) \/ trunc_collision H (left_chars clamp pfx_pri (max_chain nft)).
+Proof. exact profile_chain_injective. Qed.
+Print Assumptions c37_profile_chain_injective.
+
+(* endpoint chains: same, over the eight endpoint prefixes *)
+Theorem c37_endpoint_chain_injective : forall clamp H p q a b max n,
+  In p endpoint_prefixes -> In q endpoint_prefixes -> a <> [] -> b <> [] ->
+  endpoint_chain clamp H p a max = Some n -> endpoint_chain clamp H q b max = Some n ->
+  (p = q /\ a = b) \/ trunc_collision H (left_chars clamp p max).
+Proof. exact endpoint_chain_injective. Qed.
+Print Assumptions c37_endpoint_chain_injective.
+
+(* interface names (<= 15 bytes) are never shortened: the chain name is prefix ++ name, hence injective outright *)
+Theorem c37_endpoint_chain_plain : forall clamp H p a nft,
+  In p endpoint_prefixes -> a <> [] -> length a <= 15 ->
+  endpoint_chain clamp H p a (max_chain nft) = Some (p ++ a).
+Proof. exact endpoint_chain_plain. Qed.
+Print Assumptions c37_endpoint_chain_plain.
+
+(* policy group chain names are at most 28 bytes *)
+Theorem c37_group_chain_fits : forall H3 i sel ps, length (group_chain H3 i sel ps) <= 28.
+Proof. exact group_chain_fits. Qed.
+Print Assumptions c37_group_chain_fits.
+
+(* policy group chains: equal names => same direction and same hashed content, or a 20-character SHA3-224 collision *)
+Theorem c37_group_chain_injective : forall H3 i j s t ps qs,
+  group_chain H3 i s ps = group_chain H3 j t qs ->
+  i = j /\ (group_content i s ps = group_content j t qs \/ trunc_collision H3 20).
+Proof. exact group_chain_injective. Qed.
+Print Assumptions c37_group_chain_injective.
+
+(* a group chain never equals a policy/profile/endpoint chain *)
+Theorem c37_group_vs_others : forall clamp H H3 i s ps p t max n,
+  In p chain_prefixes -> p <> group_pfx i ->
+  gllid clamp H p t max = Some n -> n <> group_chain H3 i s ps.
+Proof. exact group_vs_gllid_disjoint. Qed.
+Print Assumptions c37_group_vs_others.
+
+(* main IP set names are at most 31 bytes *)
+Theorem c37_main_set_fits : forall np v6 id, length (main_set_name np v6 id) <= 31.
+Proof. exact main_set_fits. Qed.
+Print Assumptions c37_main_set_fits.
+
+(* temporary IP set names are at most 31 bytes (for every counter value) *)
+Theorem c37_temp_set_fits : forall v6 n, length (temp_set_name cali v6 n) <= 31.
+Proof. exact temp_set_fits. Qed.
+Print Assumptions c37_temp_set_fits.
+
+(* a main set name never equals a temporary set name, in either IP version *)
+Theorem c37_main_temp_disjoint : forall v6 v6' id n, main_set_name cali v6 id <> temp_set_name cali v6' n.
+Proof. exact main_temp_disjoint. Qed.
+Print Assumptions c37_main_temp_disjoint.
+
+(* main sets: equal names => same IP version and same ID, or both IDs of >= 25 bytes sharing their first 25 bytes *)
+Theorem c37_main_set_injective : forall v6 v6' a b,
+  main_set_name cali v6 a = main_set_name cali v6' b ->
+  v6 = v6' /\ (a = b \/ (25 <= length a /\ 25 <= length b /\ firstn 25 a = firstn 25 b)).
+Proof. exact main_set_injective. Qed.
+Print Assumptions c37_main_set_injective.
+
+(* main sets whose IDs come from MakeUniqueID: equal names => same version, tag and content, or a truncated SHA-224 collision *)
+Theorem c37_main_set_hashed_injective : forall H224 v6 v6' t t' c c',
+  has colon t = false -> has colon t' = false -> length t <= 9 -> length t' <= 9 ->
+  main_set_name cali v6 (make_unique_id H224 t c) = main_set_name cali v6' (make_unique_id H224 t' c') ->
+  v6 = v6' /\ t = t' /\ (c = c' \/ trunc_collision H224 (24 - length t)).
+Proof. exact main_set_hashed_injective. Qed.
+Print Assumptions c37_main_set_hashed_injective.
+
+(* temporary sets: equal names => same version and same counter (64-bit counters) *)
+Theorem c37_temp_set_injective : forall v6 v6' n m,
+  (n < 18446744073709551616)%N -> (m < 18446744073709551616)%N ->
+  temp_set_name cali v6 n = temp_set_name cali v6' m -> v6 = v6' /\ n = m.
+Proof. exact temp_set_injective. Qed.
+Print Assumptions c37_temp_set_injective.
+
+(* MakeUniqueID: equal IDs => same tag and content, or a SHA-224 collision *)
+Theorem c37_make_unique_id_injective : forall H224 t t' c c',
+  has colon t = false -> has colon t' = false ->
+  make_unique_id H224 t c = make_unique_id H224 t' c' ->
+  t = t' /\ (c = c' \/ exists x y, x <> y /\ H224 x = H224 y).
+Proof. exact make_unique_id_injective. Qed.
+Print Assumptions c37_make_unique_id_injective.
